@@ -310,15 +310,26 @@ fn proxy_world(ctx: &mut Ctx) {
 /// (which reaches the ROUTER side as the two-frame message [identity, content]), clients that
 /// pipeline instead of running in lock-step, DEALER echo workers.
 fn proxy_dealer_world(ctx: &mut Ctx) {
-    world::swarm(ctx, SwarmOpts { small_caps: false, ..Default::default() });
+    // one case in twelve: client 0 sends a long run (130..330 messages) back to back, so that far
+    // more messages are ready on one side of the proxy than any batch size it may use internally.
+    // Those messages are small and the pipes unbounded: a long run of large messages fills the
+    // pipes in both directions and ends in the mutual back-pressure deadlock of proxy() (11.2),
+    // which is flow control, not forwarding fidelity
+    let long_run = ctx.plan(12) == 1;
+    world::swarm(ctx, SwarmOpts { small_caps: false, tiny_chunks: !long_run, ..Default::default() });
+    if long_run {
+        let mut p = ctx.sim.rt.net.borrow().profile;
+        p.cap = 1 << 26;
+        ctx.sim.rt.net.borrow_mut().profile = p;
+    }
     let nc = 1 + ctx.plan(3) as usize;
     let nw = 1 + ctx.plan(2) as usize;
     let real_c: Vec<bool> = (0..nc).map(|_| ctx.plan_bool()).collect();
     let real_w: Vec<bool> = (0..nw).map(|_| ctx.plan_bool()).collect();
-    let counts: Vec<u32> = (0..nc).map(|_| 1 + ctx.plan(5) as u32).collect();
-    let gaps: Vec<u32> = (0..nc).map(|_| ctx.plan(4) as u32).collect();
+    let counts: Vec<u32> = (0..nc).map(|c| if long_run && c == 0 { 130 + ctx.plan(200) as u32 } else { 1 + ctx.plan(5) as u32 }).collect();
+    let gaps: Vec<u32> = (0..nc).map(|c| if long_run && c == 0 { 0 } else { ctx.plan(4) as u32 }).collect();
     let capture = (ctx.idx % 4) as usize;
-    let shapes: Vec<Vec<usize>> = (0..8).map(|_| (0..1 + ctx.plan(3)).map(|_| ctx.plan_pick(&[0usize, 0, 1, 20, 255, 256, 3000])).collect()).collect();
+    let shapes: Vec<Vec<usize>> = (0..8).map(|_| (0..1 + ctx.plan(3)).map(|_| if long_run { ctx.plan_pick(&[0usize, 1, 20]) } else { ctx.plan_pick(&[0usize, 0, 1, 20, 255, 256, 3000]) }).collect()).collect();
     let st = Rc::new(RefCell::new(St::default()));
     let s2 = st.clone();
     let (real_c2, real_w2, counts2, shapes2) = (real_c.clone(), real_w.clone(), counts.clone(), shapes.clone());
@@ -585,6 +596,9 @@ fn proxy_dealer_world(ctx: &mut Ctx) {
         if shapes.iter().any(|sh| sh.len() == 1) {
             ctx.probe("single_frame_message_forwarded");
         }
+        if long_run {
+            ctx.probe("long_run_forwarded");
+        }
         ctx.nontrivial();
     }
     if ctx.want_sample {
@@ -598,7 +612,7 @@ pub fn def() -> PropDef {
     PropDef {
         id: "C15",
         level: "exploration",
-        rule: "one case = REQ clients (1..3, real sockets or scripted) - ROUTER | proxy() | DEALER - REP workers (1..3, real or scripted echo), capture socket kind walked by the case index {none, PUSH, PUB, DEALER} connected to a scripted sink; 1..4 lock-step round trips per client with drawn payload shapes; transport, schedule and select! order drawn per case; every worker admitted before the first request; oracles on connection taps; proxy_dealer_world: the same proxy with 1..3 DEALER clients (real or scripted) that pipeline 1..5 delimiter-less messages of 1..3 frames (a single frame becomes the two-frame [identity, content] on the ROUTER side) to 1..2 DEALER echo workers: every message comes back to its sender verbatim and exactly once (in order with one worker), reaches the workers as identity + verbatim frames in per-client order, capture gets one copy per forwarded message; non-trivial = judgement reached with proxy still running; distinct = distinct (plan, schedule, transport+select) hashes",
+        rule: "one case = REQ clients (1..3, real sockets or scripted) - ROUTER | proxy() | DEALER - REP workers (1..3, real or scripted echo), capture socket kind walked by the case index {none, PUSH, PUB, DEALER} connected to a scripted sink; 1..4 lock-step round trips per client with drawn payload shapes; transport, schedule and select! order drawn per case; every worker admitted before the first request; oracles on connection taps; proxy_dealer_world: the same proxy with 1..3 DEALER clients (real or scripted) that pipeline 1..5 (one case in twelve: 130..330, back to back) delimiter-less messages of 1..3 frames (a single frame becomes the two-frame [identity, content] on the ROUTER side) to 1..2 DEALER echo workers: every message comes back to its sender verbatim and exactly once (in order with one worker), reaches the workers as identity + verbatim frames in per-client order, capture gets one copy per forwarded message; non-trivial = judgement reached with proxy still running; distinct = distinct (plan, schedule, transport+select) hashes",
         assumptions: &["clients and workers do not depart during a run (proxy() returns on the first send error, and the statement speaks about the time while a proxy runs)", "the capture sink accepts every write"],
         strata: vec![
             Stratum { name: "proxy_world", quick: 60_000, thorough: (1_000_000) * 2, exhaustive: (false, false), run: proxy_world, what: "REQ - ROUTER/proxy/DEALER - REP chain with capture, verbatim forwarding on taps" },
